@@ -30,7 +30,9 @@ RULE = (
     "whose row carries the key only (from_statement(text)). Sub-check inherit: the same machine on a joined-inheritance SubItem(Item) (one column per table) with populate_existing "
     "queries against the base class (row lacks the subclass column), the subclass, and a key-only text statement. Sub-check composite: Shape.start = composite(Point, px, py), "
     "read (cached) early, then compared with its columns and the database after refresh(obj), refresh(obj, [..]), populate_existing via select option / Query.populate_existing / "
-    "get(populate_existing=True), expire + access, commit/rollback + access; distinct = canonical JSON of the program"
+    "get(populate_existing=True), expire + access, commit/rollback + access. Sub-check m2o: a one-directional many-to-one attribute (scalar object attribute) on 1-3 children "
+    "through set (pending, autoflush off) / expire by name together with its FK column / expire(obj) / refresh / read, 1-3 transactions ended by commit or rollback, the FK "
+    "changed externally between them; non-trivial = a read of an expired attribute; distinct = canonical JSON of the program"
 )
 ASSUMPTIONS = [
     "external writes happen only while the session has no open transaction (right after commit/rollback); SQLite file database, rollback-journal mode",
@@ -938,7 +940,139 @@ def _composite_programs(draw):
         epochs.append({"ext": ext, "ops": ops, "end": draw(st.sampled_from(["commit", "commit", "commit", "rollback"]))})
     return {"cfg": {"autoflush": draw(st.booleans()), "eoc": draw(st.sampled_from([False, False, True]))}, "rows": [[draw(_val), draw(_val)] for _ in range(n)], "epochs": epochs}
 
+# --------------------------------------------------------------------------- many-to-one attribute (scalar object attribute)
+_M2O = {}
 
+
+def _m2o_family():
+    if not _M2O:
+        from sqlalchemy import Column, ForeignKey, Integer
+        from sqlalchemy.orm import declarative_base, relationship
+
+        Base = declarative_base()
+
+        class MParent(Base):
+            __tablename__ = "mparent"
+            id = Column(Integer, primary_key=True)
+
+        class MChild(Base):
+            __tablename__ = "mchild"
+            id = Column(Integer, primary_key=True)
+            parent_id = Column(ForeignKey("mparent.id"))
+            # one-directional on purpose: with a backref, a discarded pending `child.parent = p` would survive in p.children
+            # and be written by the one-to-many side at flush (a different, documented hazard)
+            parent = relationship(MParent)
+
+        _M2O.update(Base=Base, P=MParent, C=MChild)
+    return _M2O
+
+
+def check_m2o(case, ctx):
+    """child.parent (many-to-one) through set / expire-by-name / expire(obj) / refresh / read / commit / rollback, with the FK changed
+    externally between transactions.  Model per child: ('L', v) loaded, ('P', v) pending, ('E',) expired; db[kid] = parent id."""
+    from sqlalchemy import select
+    from sqlalchemy.orm import Session
+
+    from vf.sautil import file_engine, raw_connect, remove_db
+
+    fam = _m2o_family()
+    P, C = fam["P"], fam["C"]
+    n_p = case["n_p"]
+    db = {i + 1: (None if k is None else k % n_p + 1) for i, k in enumerate(case["kids"])}
+    eng = file_engine(ctx)
+    fam["Base"].metadata.create_all(eng)
+    rc = raw_connect(eng._vf_path)
+    classes = set()
+    nontrivial = False
+    sess = None
+    try:
+        rc.executemany("INSERT INTO mparent (id) VALUES (?)", [(i + 1,) for i in range(n_p)])
+        rc.executemany("INSERT INTO mchild (id, parent_id) VALUES (?, ?)", list(db.items()))
+        sess = Session(eng, autoflush=False, expire_on_commit=case["eoc"])
+        parents = {o.id: o for o in sess.scalars(select(P).order_by(P.id))}
+        kids = {o.id: o for o in sess.scalars(select(C).order_by(C.id))}
+        st_ = {k: ("E",) for k in kids}  # the relationship itself is not loaded by the query
+        sess.rollback()  # end the read transaction; loaded column values stay (rollback expires them: see below)
+        for k in kids:
+            st_[k] = ("E",)
+        for ei, ep in enumerate(case["epochs"]):
+            for kid_i, newp in ep["ext"]:
+                kid = kid_i % len(kids) + 1
+                v = None if newp is None else newp % n_p + 1
+                rc.execute("UPDATE mchild SET parent_id = ? WHERE id = ?", (v, kid))
+                db[kid] = v
+                classes.add("ext-reparent")
+            for oi, op in enumerate(ep["ops"]):
+                where = f"epoch {ei} op {oi} {op}"
+                kid = op[1] % len(kids) + 1
+                ch = kids[kid]
+                if op[0] == "set":
+                    v = None if op[2] is None else op[2] % n_p + 1
+                    ch.parent = parents[v] if v is not None else None
+                    s0 = st_[kid]
+                    # ('P', value, original): re-assigning the held value is no net change (nothing is written, even if the row moved on)
+                    orig = s0[2] if s0[0] == "P" else (s0[1] if s0[0] == "L" else NOVAL)
+                    st_[kid] = ("L", v) if (orig != NOVAL and orig == v) else ("P", v, orig)
+                elif op[0] == "expire":
+                    sess.expire(ch, ["parent", "parent_id"])
+                    if st_[kid][0] == "P":
+                        classes.add("named-expire-over-pending")
+                    st_[kid] = ("E",)
+                elif op[0] == "expire_obj":
+                    sess.expire(ch)
+                    st_[kid] = ("E",)
+                elif op[0] == "refresh":
+                    sess.refresh(ch, ["parent", "parent_id"])
+                    st_[kid] = ("L", db[kid])
+                else:  # read
+                    got = ch.parent
+                    s0 = st_[kid]
+                    exp = db[kid] if s0[0] == "E" else s0[1]
+                    got_id = None if got is None else got.id
+                    if got_id != exp or (got is not None and got is not parents[got_id]):
+                        ctx.note(case, True, classes=sorted(classes))
+                        raise Violation("C46/m2o/" + {"E": "expired-attribute-not-reloaded", "P": "pending-value-lost", "L": "loaded-value-changed"}[s0[0]],
+                                        f"{where}: child {kid}.parent is {got!r} (id {got_id}), expected parent id {exp} (attribute state {s0}, row parent_id {db[kid]})",
+                                        observed=got_id, expected=exp)
+                    if s0[0] == "E":
+                        st_[kid] = ("L", exp)
+                        nontrivial = True
+                    classes.add("read-" + s0[0])
+            if ep["end"] == "commit":
+                sess.commit()
+                for k, s0 in st_.items():
+                    if s0[0] == "P":
+                        db[k] = s0[1]
+                    st_[k] = ("E",) if case["eoc"] else (("L", s0[1]) if s0[0] != "E" else s0)
+                row = dict(rc.execute("SELECT id, parent_id FROM mchild").fetchall())
+                if row != db:
+                    raise Violation("C46/m2o/committed-rows", f"after commit of epoch {ei}: rows {row} != model {db}", observed=row, expected=db)
+            else:
+                sess.rollback()
+                for k in st_:
+                    st_[k] = ("E",)
+        ctx.note(case, nontrivial, classes=sorted(classes))
+    finally:
+        if sess is not None:
+            sess.close()
+        rc.close()
+        remove_db(eng)
+
+
+@st.composite
+def _m2o_programs(draw):
+    n_p = draw(st.integers(2, 3))
+    kids = draw(st.lists(st.one_of(st.none(), st.integers(0, 2)), min_size=1, max_size=3))
+    pv = st.one_of(st.none(), st.integers(0, 2))
+    op = st.one_of(
+        st.tuples(st.just("set"), st.integers(0, 2), pv).map(list),
+        st.tuples(st.sampled_from(["expire", "expire", "expire_obj", "refresh", "read", "read", "read"]), st.integers(0, 2)).map(list),
+    )
+    epochs = []
+    for i in range(draw(st.integers(1, 3))):
+        ext = [list(t) for t in draw(st.lists(st.tuples(st.integers(0, 2), pv), max_size=2))]
+        epochs.append({"ext": ext, "ops": draw(st.lists(op, min_size=1, max_size=8)), "end": draw(st.sampled_from(["commit", "commit", "rollback"]))})
+    return {"n_p": n_p, "kids": kids, "eoc": draw(st.booleans()), "epochs": epochs}
 
 
 def subs(tier):
@@ -946,4 +1080,5 @@ def subs(tier):
         Generated("histories", check, strategy=_programs(), quick=2400, thorough=80000),
         Generated("inherit", check_inherit, strategy=_inherit_programs(), quick=900, thorough=30000),
         Generated("composite", check_composite, strategy=_composite_programs(), quick=900, thorough=30000),
+        Generated("m2o", check_m2o, strategy=_m2o_programs(), quick=900, thorough=30000),
     ]
